@@ -33,6 +33,7 @@ from coqfmt import zraw, b, lst, opt, tup
 replay = common.generic_replay
 
 PRELUDE = '''From Model Require Import Graph Kekule Thiele.
+From Proofs Require Import KekuleSound.
 Import ListNotations.
 Open Scope Z_scope.
 Definition A (n num chg h : Z) : Z * atom := (n, mkAtom num None chg false (Some h) None).
@@ -84,12 +85,22 @@ Definition th_ok (g : mol) (sssr rings2 : list (list Z)) (fok : list bool) (ret 
             (negb reached || (sk_eqb (o_skeleton o) sk && (o_nsssr o =? ns) && list_eqb (list_eqb Z.eqb) (o_freaks o) freaks))
   | Err _ => false
   end.
+(* thiele() with the default fix_tautomers=True: additionally the hydrogen counts; ords = the iteration orders of the skeleton sets *)
+Definition hs_eqb (g g' : mol) : bool := list_eqb (option_eqb Z.eqb) (map (fun x => a_h (snd x)) (m_atoms g)) (map (fun x => a_h (snd x)) (m_atoms g')).
+Definition tht_ok (g : mol) (sssr : list (list Z)) (ords : adjl) (rings2 : list (list Z)) (fok : list bool) (ret : bool) (g' : mol)
+                  (reached : bool) (sk : adjl) (ns : Z) (freaks : list (list Z)) : bool :=
+  match thiele_model_t g sssr ords rings2 fok with
+  | Ok o => Bool.eqb (o_result o) ret && same_orders (o_mol o) g' && same_orders g' (o_mol o) && hs_eqb (o_mol o) g' &&
+            (negb reached || (sk_eqb (o_skeleton o) sk && (o_nsssr o =? ns) && list_eqb (list_eqb Z.eqb) (o_freaks o) freaks))
+  | Err _ => false
+  end.
 (* the search _kekule_component: first yields, raise flag *)
 Definition E (a p o : Z) : kentry := (a, p, o).
 Definition kentry_eqb (x y : kentry) : bool := let '(a, p, o) := x in let '(a', p', o') := y in (a =? a') && (p =? p') && (o =? o').
-Definition kc_ok (rings : adjl) (db : list Z) (dbs : Z) (pyr : list Z) (bs maxy : Z) (ys : list (list kentry)) (raised : bool) (sound : list bool) : bool :=
+Definition kc_ok (rings : adjl) (db : list Z) (dbs : Z) (pyr : list Z) (bs maxy : Z) (ys : list (list kentry)) (raised : bool) (sound : list bool) (wf : bool) : bool :=
   match kekule_component rings db dbs pyr bs (Z.to_nat maxy) (Z.to_nat 30000) with
-  | Ok (ys', r, _) => list_eqb (list_eqb kentry_eqb) ys' ys && Bool.eqb r raised && list_eqb Bool.eqb (map (form_sound rings db pyr) ys') sound
+  | Ok (ys', r, _) => list_eqb (list_eqb kentry_eqb) ys' ys && Bool.eqb r raised && list_eqb Bool.eqb (map (form_sound rings db pyr) ys') sound &&
+                      Bool.eqb (rings_wf2 rings db pyr) wf
   | Err _ => false
   end.
 (* the per-atom function alone, for the states that reach the atom loop *)
@@ -259,6 +270,10 @@ MALFORMED = [
 THIELE_BOUNDARY = ['CS1C=CC=C1', 'C1=CC=CN1~[Fe]', 'C1=CC=CB1~[Na]', 'C1=CC=CP1(C)~[Fe]', 'C1=CC=C[N]1(C)C', 'C1=CC=CO1~[Li]', 'C1=CC=CC=C[BH]1', 'C1=CC=CC=CN1',
                    'C1=CC=C[N-]1', 'CC1=CC=C[S]1=O', 'C1=CC=CC=CC=CN1', 'C1=CN1', 'C1=CC=C[O+]1', 'C1=CC=CC=C[CH-]1']
 
+# Kekule forms on which the hydrogen-moving search of thiele(fix_tautomers=True) has donors and acceptors
+TAUTOMER_INPUTS = ['N1C=CC2=NC=NC2=C1', 'C1=CC2=NC=CC2=CN1', 'N1C=CC2=CC=NC2=C1', 'N1C=CC2=NC3=CC=CC=C3C2=C1', 'N1C=NC2=NC=CC2=C1', 'O=C1NC=CC2=NC=CC12',
+                   'N1C=CC2=NC=CC2=N1', 'C1=CC2=NC=CC2=CN1C', 'N1C=CC2=C1C=CC1=NC=CC21', 'N1C=CC2=NC=CC2=C1.N1C=CC2=NC=CC2=C1', 'N1C=CC(=C2C=CN=C2)C=C1']
+
 KEKULE_SPELLED = [
     # Kekule spellings that thiele aromatises
     'C1=CNC=C1', 'C1=COC=C1', 'C1=CSC=C1', 'C1=CC=NC=C1', 'C1=CC=C2NC=CC2=C1', 'N1C=CC2=NC=CC2=C1', 'N1C=CN2C=CC=C12', 'O=C1C=CC(=O)C=C1', 'O=C1C=CNC=C1', 'C1=C[Se]C=C1',
@@ -349,7 +364,7 @@ def load_inputs(ck):
     from chython import smiles, SDFRead
     rng = random.Random(f'{ck.seed}:c05:inputs')
     quick = ck.tier == 'quick'
-    items = [('curated', s) for s in dict.fromkeys(CURATED + KEKULE_SPELLED + FINDING_INPUTS + BUFFER_INPUTS)]
+    items = [('curated', s) for s in dict.fromkeys(CURATED + KEKULE_SPELLED + TAUTOMER_INPUTS + FINDING_INPUTS + BUFFER_INPUTS)]
     items += [('malformed', s) for s in dict.fromkeys(MALFORMED + THIELE_BOUNDARY)]
     items += generated(rng, 72 if quick else 600)
     try:
@@ -712,8 +727,19 @@ class Pipe:
                 cases.append((tcase, ('thiele model', label, list(m0._atoms)), 'prep'))
                 ck.case(('thiele model', tag, label), nontrivial=tret)
                 ck.count(f'thiele model: returned-{tret}' + (' (freak rings)' if tfreaks else '') + ('' if treached else ' before the ring search'))
-                if snap(tf) != snap(a):
+                moved = snap(tf) != snap(a)
+                if moved:
                     ck.count('thiele: fix_tautomers=True gives another result than fix_tautomers=False')
+                if full or moved:
+                    # the default thiele() incl. the hydrogen-moving search, on the same Kekule form
+                    tdef, tcase, tt, tret, treached, _ = thiele_case(k, f'k{i}', f'tr{i}', i, taut=True)
+                    if snap(tt) != snap(a):
+                        self.bad(True, f'thiele-not-deterministic:{smi}', 'two runs of thiele() on copies of one molecule differ', label, str(tt), str(a), 'snapshot equality',
+                                 code_of('m.kekule(); a=m.copy(); a.thiele(); m.thiele(); print(a, m)'))
+                    defs.append(tdef)
+                    cases.append((tcase, ('thiele model (fix_tautomers)', label, list(m0._atoms)), 'prep'))
+                    ck.case(('thiele model t', tag, label), nontrivial=moved)
+                    ck.count('thiele model (fix_tautomers=True): ' + ('hydrogen moved' if moved else 'nothing to move'))
             except Exception as e:
                 self.bad(True, f'thiele-crash:{type(e).__name__}:{smi}', f'thiele(fix_tautomers=False) raises {type(e).__name__}', label, repr(e), 'an aromatic form',
                          'exception class', code_of('m.kekule(); m.thiele(fix_tautomers=False)'))
@@ -837,6 +863,7 @@ class Pipe:
                         report_unsound(self.ck, rings, dbl, pyr, bs, y, v, label)
                 cases.append((kc_case(rings, dbl, dbs, pyr, bs, k_yields, ys, raised, verdicts), ('search', label, list(m0._atoms), bs), 'prep'))
                 self.ck.case(('search', label, tuple(m0._atoms), bs, tuple(rings)), nontrivial=bool(ys))
+                self.ck.count('search: component ' + ('satisfies' if component_wf(rings, dbl, pyr) else 'does not satisfy') + ' the hypotheses of kekule_component_sound_partial')
                 self.ck.count(f'search: buffer={bs}: {"InvalidAromaticRing" if raised else str(len(ys)) + " form(s) compared"}')
 
     def report_valence(self, src, res, ve, ve_before, dom, label, code):
@@ -1048,12 +1075,40 @@ class FreakWrap:
         return iter(res)
 
 
-def thiele_case(m, gname, rname, i):
-    """real thiele(fix_tautomers=False) on a copy of the Kekule form m with the inputs of Model.Thiele.thiele_model recorded
-    (what _sssr finds in the pruned skeleton, which freak rings match); returns (definition, case, result molecule, flags)"""
+class RecSet(set):
+    """a set that remembers the order in which it was iterated first (the hydrogen-moving search of thiele() walks the skeleton
+    sets; their iteration order is an input of the model)"""
+    __slots__ = ('first_order',)
+
+    def __iter__(self):
+        if not hasattr(self, 'first_order'):
+            self.first_order = list(set.__iter__(self))
+        return set.__iter__(self)
+
+
+class RecDefaultDict(dict):
+    """stands in for collections.defaultdict(set) inside thiele(): the sets are RecSet, every set ever created is kept"""
+    made = None
+
+    def __init__(self, factory=None):
+        super().__init__()
+        self.all_sets = {}
+        RecDefaultDict.made = self
+
+    def __missing__(self, key):
+        v = RecSet()
+        self[key] = v
+        self.all_sets.setdefault(key, v)
+        return v
+
+
+def thiele_case(m, gname, rname, i, taut=False):
+    """real thiele(fix_tautomers=taut) on a copy of the Kekule form m with the inputs of Model.Thiele.thiele_model(_t) recorded
+    (what _sssr finds in the pruned skeleton, which freak rings match, the iteration orders of the skeleton sets);
+    returns (definition, case, result molecule, flags)"""
     import chython.algorithms.aromatics.thiele as tm
     rec, flog = {}, []
-    orig_sssr, orig_freaks = tm._sssr, tm.freak_rules
+    orig_sssr, orig_freaks, orig_dd = tm._sssr, tm.freak_rules, tm.defaultdict
 
     def rec_sssr(rings, n):
         rec['sk'] = [(k, sorted(v)) for k, v in rings.items()]
@@ -1063,11 +1118,14 @@ def thiele_case(m, gname, rname, i):
         return out
     tm._sssr = rec_sssr
     tm.freak_rules = [FreakWrap(q, flog) for q in orig_freaks]
+    if taut:
+        tm.defaultdict = RecDefaultDict
+        RecDefaultDict.made = None
     a = m.copy()
     try:
-        ret = a.thiele(fix_tautomers=False)
+        ret = a.thiele(fix_tautomers=taut)
     finally:
-        tm._sssr, tm.freak_rules = orig_sssr, orig_freaks
+        tm._sssr, tm.freak_rules, tm.defaultdict = orig_sssr, orig_freaks, orig_dd
     freaks, fok = [], []
     for scope, ok in flog:
         if scope not in freaks:
@@ -1079,6 +1137,11 @@ def thiele_case(m, gname, rname, i):
     sk = lst([tup(zraw(k), lst(v, zraw)) for k, v in rec.get('sk', [])])
     r2 = lst([lst(r, zraw) for r in rec.get('rings2', [])])
     fr = lst([lst(list(r), zraw) for r in freaks])
+    if taut:
+        made = RecDefaultDict.made
+        ords = lst([tup(zraw(k), lst(getattr(v, 'first_order', sorted(v)), zraw)) for k, v in (made.all_sets.items() if made is not None else [])])
+        case = f'tht_ok {gname} {rname} {ords} {r2} {lst(fok, b)} {b(ret)} tt{i} {b(reached)} {sk} {rec.get("n", 0)} {fr}'
+        return f'Definition tt{i} := {mol_t(a)}.', case, a, ret, reached, bool(freaks)
     case = f'th_ok {gname} {rname} {r2} {lst(fok, b)} {b(ret)} tf{i} {b(reached)} {sk} {rec.get("n", 0)} {fr}'
     return f'Definition tf{i} := {mol_t(a)}.', case, a, ret, reached, bool(freaks)
 
@@ -1086,7 +1149,30 @@ def thiele_case(m, gname, rname, i):
 def kc_case(rings, dbl, dbs, pyr, bs, k_yields, ys, raised, verdicts):
     rt = lst([tup(zraw(n), lst(ms, zraw)) for n, ms in rings.items()])
     yt = lst([lst([f'E {zraw(a)} {zraw(p_)} {o}' for a, p_, o in y]) for y in ys])
-    return f'kc_ok {rt} {lst(dbl, zraw)} {zraw(dbs)} {lst(pyr, zraw)} {bs} {k_yields} {yt} {b(raised)} {lst([b(not v) for v in verdicts])}'
+    return (f'kc_ok {rt} {lst(dbl, zraw)} {zraw(dbs)} {lst(pyr, zraw)} {bs} {k_yields} {yt} {b(raised)} {lst([b(not v) for v in verdicts])} '
+            f'{b(component_wf(rings, dbl, pyr))}')
+
+
+def component_wf(rings, db, pyr):
+    """independent statement of Proofs.KekuleSound.rings_wf2, the hypotheses of kekule_component_sound_partial: simple symmetric
+    connected skeleton, two or three neighbours per atom, positive numbers, the two sets disjoint subsets of it, every
+    pyrrole-type atom with two skeleton neighbours"""
+    if not rings or any(n <= 0 for n in rings):
+        return False
+    for n, ms in rings.items():
+        if len(set(ms)) != len(ms) or n in ms or len(ms) not in (2, 3) or any(m not in rings or n not in rings[m] for m in ms):
+            return False
+    seen, todo = set(), [next(iter(rings))]
+    while todo:
+        x = todo.pop()
+        if x not in seen:
+            seen.add(x)
+            todo.extend(rings[x])
+    if seen != set(rings):
+        return False
+    if len(set(db)) != len(db) or len(set(pyr)) != len(pyr) or not set(db) <= set(rings) or not set(pyr) <= set(rings) or set(db) & set(pyr):
+        return False
+    return all(len(rings[v]) == 2 for v in pyr)
 
 
 def form_unsound(rings, db, pyr, path):
